@@ -42,6 +42,12 @@ class Gen:
             self._src_cache[rel] = extract.strip_comments(open(path).read())
         return self._src_cache[rel]
 
+    def src_with_attrs(self, rel):
+        path = os.path.join(self.repo, rel)
+        if not os.path.exists(path):
+            raise extract.LostAnchor('source file %s missing' % rel)
+        return extract.strip_comments(open(path).read(), keep_attrs=True)
+
     def raw(self, text):
         self.lines.extend(text.split('\n'))
 
